@@ -82,18 +82,38 @@ def forces_of(b1, b2, bp, det):
         out = contact_forces(b1, b2, return_details=det)
         flag, w12, w21 = out[0], out[1], out[2]
         cs = find_contact_surface(b1, b2)
-    pairs = set(zip(map(int, cs.intersecting_tetrahedra1), map(int, cs.intersecting_tetrahedra2))) if cs.intersection else set()
+    pairs = pair_areas(cs)
     return bool(flag), np.array(w12, dtype=float), np.array(w21, dtype=float), pairs
+
+
+def pair_areas(cs):
+    """intersecting tetrahedron pairs -> area of their contact polygon"""
+    if not cs.intersection:
+        return {}
+    return {(int(i), int(j)): float(a) for i, j, a in zip(cs.intersecting_tetrahedra1, cs.intersecting_tetrahedra2, cs.contact_areas)}
+
+
+def same_pairs(p, q):
+    """the two runs report the same pairs; a pair whose polygon has (numerically) no area may appear in only one of them when
+    the two runs were given vertex arrays that differ by rounding (identity re-expression)"""
+    return all(max(p.get(k, 0.0), q.get(k, 0.0)) <= 1e-9 for k in set(p) ^ set(q))
 
 
 def session(args):
     """one session: three factory bodies at general poses driven through a history of the session model"""
-    sid, seed, hist = args
+    sid, seed, hist = args[:3]
     env.setup()
     from distance3d.hydroelastic_contact import contact_forces, find_contact_surface
     rng = random.Random(seed)
     base = np.array([rng.uniform(-3, 3) for _ in range(3)])
     spec = {nm: [rng.choice(KINDS), rand_pose(rng, base), 10 ** rng.uniform(-2, 2)] for nm in NAMES}
+    if rng.random() < 0.4:
+        # one body far away: no contact with it, but bodies re-expressed in its frame get large coordinates
+        d = np.array([rng.gauss(0, 1) for _ in range(3)])
+        spec[rng.choice(NAMES)][1][:3, 3] += d / np.linalg.norm(d) * 10 ** rng.uniform(0.7, 1.8)
+    light = len(args) > 4                                        # only drive the session (used by the C04 check)
+    if len(args) > 3 and args[3] is not None:                    # pinned session: explicit bodies
+        spec = {nm: [args[3][nm][0], np.array(args[3][nm][1], dtype=float), args[3][nm][2]] for nm in NAMES}
     bodies = {nm: make_body(*spec[nm]) for nm in NAMES}
     user_arr = {nm: bodies[nm].body2origin_ for nm in NAMES}        # the pose arrays the "user" owns
     ver = {nm: 0 for nm in NAMES}
@@ -119,51 +139,84 @@ def session(args):
             own = [o for o in NAMES if np.shares_memory(b.body2origin_, user_arr[o])]
             e["arr"][nm] = own[0] if own else "private"
             e["world"][nm] = ticks(float(np.max(np.abs(world_vertices(b) - world_vertices(fresh(nm))))), 1e-9 * 10 / 8)
-        e["staleCaches"] = bad + e.get("staleCaches", [])
+        e["staleCaches"] = bad + e["staleCaches"]
 
+    def blank(op, eid, h):
+        return {"ev": op, "id": eid, "b1": h["b1"], "b2": h["b2"], "bp": h["bp"], "det": bool(h["det"]), "how": h["how"], "exc": "none",
+                "ar": 0, "swap": 0, "swapT": 0, "rigid": 0, "repeat": 0, "repeatT": 0, "fresh": 0, "freshT": 0, "flagsSame": True, "pairsSame": True,
+                "ofr": {n: ["unknown", 0] for n in NAMES}, "arr": {n: "?" for n in NAMES}, "world": {n: 0 for n in NAMES}, "staleCaches": []}
+
+    def pairs_of(cs):
+        return set(pair_areas(cs))
+
+    def do_cf(e, h, prev=None, full=True):
+        """one contact call on the session bodies = one ContactForces action of the model; prev: the result of the same call just before"""
+        b1n, b2n = h["b1"], h["b2"]
+        b1, b2 = bodies[b1n], bodies[b2n]
+        flag, w12, w21, pairs = forces_of(b1, b2, h["bp"], h["det"])
+        f12, f21 = w12[:3], w21[:3]
+        fm = max(float(np.linalg.norm(f12)), float(np.linalg.norm(f21)))
+        e["fmag"] = fm
+        e["ar"] = ticks(rel(f12, -f21), TICK)
+        flags = [flag]
+        if prev is not None:
+            pflag, p12, p21, ppairs = prev
+            e["repeat"] = ticks(max(rel(p12[:3], f12), rel(p21[:3], f21)), TICK)
+            e["repeatT"] = ticks(max(rel(p12[3:], w12[3:], fm * size), rel(p21[3:], w21[3:], fm * size)), TICK)
+            flags.append(pflag)
+            if h["bp"] != prev_bp[0]:
+                e["pairsSame"] = bool(same_pairs(pairs, ppairs))              # tree and brute-force broad phase on the same session bodies
+        if full:
+            flag_f, w12f, w21f = contact_forces(fresh(b1n), fresh(b2n))                   # fresh bodies at the same world poses
+            e["fresh"] = ticks(max(rel(w12f[:3], f12), rel(w21f[:3], f21)), TICK)
+            e["freshT"] = ticks(max(rel(w12f[3:], w12[3:], fm * size), rel(w21f[3:], w21[3:], fm * size)), TICK)
+            flags.append(bool(flag_f))
+            flag_s, s21, s12 = contact_forces(fresh(b2n), fresh(b1n))                     # swapped arguments
+            e["swap"] = ticks(max(rel(s12[:3], w12f[:3]), rel(s21[:3], w21f[:3])), TICK)
+            ff = max(float(np.linalg.norm(w12f[:3])), float(np.linalg.norm(s12[:3])))
+            e["swapT"] = ticks(max(rel(s12[3:], w12f[3:], ff * size), rel(s21[3:], w21f[3:], ff * size)), TICK)
+            flags.append(bool(flag_s))
+            G = np.eye(4); G[:3, :3] = S.random_rotation(rng); G[:3, 3] = [rng.uniform(-2, 2) for _ in range(3)]
+            flag_g, g12, g21 = contact_forces(fresh(b1n, G), fresh(b2n, G))               # one rigid motion of both bodies
+            e["rigid"] = ticks(max(rel(g12[:3], G[:3, :3] @ w12f[:3]), rel(g21[:3], G[:3, :3] @ w21f[:3])), TICK)
+            flags.append(bool(flag_g))
+            pb = pairs_of(find_contact_surface(fresh(b1n), fresh(b2n), use_aabb_trees=False))
+            pt = pairs_of(find_contact_surface(fresh(b1n), fresh(b2n), use_aabb_trees=True))
+            e["pairsSame"] = bool(e["pairsSame"] and pt == pb)
+        e["flagsSame"] = bool(len(set(flags)) == 1)
+        prev_bp[0] = h["bp"]
+        return flag, w12, w21, pairs
+
+    prev_bp = [None]
+    last_cf = [None]
+    auto_extra = len(args) <= 3          # pinned sessions list every call explicitly
     for step, h in enumerate(hist):
         op, b1n, b2n = h["op"], h["b1"], h["b2"]
-        e = {"ev": op, "id": f"{sid}.{step}", "b1": b1n, "b2": b2n, "bp": h["bp"], "det": bool(h["det"]), "how": h["how"], "exc": "none",
-             "ar": 0, "swap": 0, "swapT": 0, "rigid": 0, "repeat": 0, "repeatT": 0, "fresh": 0, "freshT": 0, "flagsSame": True, "pairsSame": True,
-             "ofr": {n: ["unknown", 0] for n in NAMES}, "arr": {n: "?" for n in NAMES}, "world": {n: 0 for n in NAMES}}
+        e = blank(op, f"{sid}.{step}", h)
+        extra = []
         try:
             if op == "cf":
-                b1, b2 = bodies[b1n], bodies[b2n]
-                flag, w12, w21, pairs = forces_of(b1, b2, h["bp"], h["det"])
-                f12, f21 = w12[:3], w21[:3]
-                fm = max(float(np.linalg.norm(f12)), float(np.linalg.norm(f21)))
-                e["fmag"] = fm
-                e["ar"] = ticks(rel(f12, -f21), TICK)
-                flags = [flag]
-                flag_r, w12r, w21r, pairs_r = forces_of(b1, b2, h["bp"], h["det"])           # the same call again
-                e["repeat"] = ticks(max(rel(w12r[:3], f12), rel(w21r[:3], f21)), TICK)
-                e["repeatT"] = ticks(max(rel(w12r[3:], w12[3:], fm * size), rel(w21r[3:], w21[3:], fm * size)), TICK)
-                flags.append(flag_r)
-                flag_f, w12f, w21f = contact_forces(fresh(b1n), fresh(b2n))                   # fresh bodies at the same world poses
-                e["fresh"] = ticks(max(rel(w12f[:3], f12), rel(w21f[:3], f21)), TICK)
-                e["freshT"] = ticks(max(rel(w12f[3:], w12[3:], fm * size), rel(w21f[3:], w21[3:], fm * size)), TICK)
-                flags.append(bool(flag_f))
-                flag_s, s21, s12 = contact_forces(fresh(b2n), fresh(b1n))                     # swapped arguments
-                e["swap"] = ticks(max(rel(s12[:3], w12f[:3]), rel(s21[:3], w21f[:3])), TICK)
-                ff = max(float(np.linalg.norm(w12f[:3])), float(np.linalg.norm(s12[:3])))
-                e["swapT"] = ticks(max(rel(s12[3:], w12f[3:], ff * size), rel(s21[3:], w21f[3:], ff * size)), TICK)
-                flags.append(bool(flag_s))
-                G = np.eye(4); G[:3, :3] = S.random_rotation(rng); G[:3, 3] = [rng.uniform(-2, 2) for _ in range(3)]
-                flag_g, g12, g21 = contact_forces(fresh(b1n, G), fresh(b2n, G))               # one rigid motion of both bodies
-                e["rigid"] = ticks(max(rel(g12[:3], G[:3, :3] @ w12f[:3]), rel(g21[:3], G[:3, :3] @ w21f[:3])), TICK)
-                flags.append(bool(flag_g))
-                e["flagsSame"] = bool(len(set(flags)) == 1)
-                cs_b = find_contact_surface(fresh(b1n), fresh(b2n), use_aabb_trees=False)
-                pb = set(zip(map(int, cs_b.intersecting_tetrahedra1), map(int, cs_b.intersecting_tetrahedra2))) if cs_b.intersection else set()
-                cs_t = find_contact_surface(fresh(b1n), fresh(b2n), use_aabb_trees=True)
-                pt = set(zip(map(int, cs_t.intersecting_tetrahedra1), map(int, cs_t.intersecting_tetrahedra2))) if cs_t.intersection else set()
-                # tree and brute-force broad phase on the same bodies: fresh ones, and the session bodies in their current state
-                cs_sb = find_contact_surface(b1, b2, use_aabb_trees=False)
-                psb = set(zip(map(int, cs_sb.intersecting_tetrahedra1), map(int, cs_sb.intersecting_tetrahedra2))) if cs_sb.intersection else set()
-                cs_st = find_contact_surface(b1, b2, use_aabb_trees=True)
-                pst = set(zip(map(int, cs_st.intersecting_tetrahedra1), map(int, cs_st.intersecting_tetrahedra2))) if cs_st.intersection else set()
-                e["pairsSame"] = bool(pt == pb and pst == psb)
+                same = last_cf[0] is not None and last_cf[0][0] == (b1n, b2n)
+                r = do_cf(e, h, prev=last_cf[0][1] if (same and not auto_extra) else None, full=not light)
+                last_cf[0] = ((b1n, b2n), r)
+                observe(e)
+                if not auto_extra:
+                    ev.append(e)
+                    continue
+                # the same call again (Repeatable), and for the tree-based broad phase the same call with the brute-force one:
+                # each is one more ContactForces action of the model and is logged as its own event
+                e2 = blank("cf", f"{sid}.{step}r", h)
+                extra.append(e2)
+                r2 = do_cf(e2, h, prev=r, full=False)
+                observe(e2)
+                if h["bp"] == "tree":
+                    h3 = dict(h, bp="brute", det=False)
+                    e3 = blank("cf", f"{sid}.{step}b", h3)
+                    extra.append(e3)
+                    do_cf(e3, h3, prev=r2, full=False)
+                    observe(e3)
             elif op == "move":
+                last_cf[0] = None
                 b = bodies[b1n]
                 new = rand_pose(rng, poses[(b1n, ver[b1n])][:3, 3], spread=0.12, general=1.0)
                 ver[b1n] += 1
@@ -180,12 +233,14 @@ def session(args):
             elif op == "aabb":
                 box = np.asarray(bodies[b1n].aabb(), dtype=float)
                 W = world_vertices(fresh(b1n))
-                aabb_obs.append({"id": e["id"], "kind": spec[b1n][0], "lo": [float(x) for x in box[:, 0] - W.min(axis=0)],
+                aabb_obs.append({"id": e["id"], "kind": spec[b1n][0], "L": max(1.0, float(np.max(np.abs(W)))), "lo": [float(x) for x in box[:, 0] - W.min(axis=0)],
                                  "hi": [float(x) for x in box[:, 1] - W.max(axis=0)], "hist": hist[:step + 1]})
-            observe(e)
+            if op != "cf":
+                observe(e)
         except Exception as ex:
-            e["exc"] = type(ex).__name__ + ":" + str(ex)[:80]
+            (extra[-1] if extra else e)["exc"] = type(ex).__name__ + ":" + str(ex)[:80]
         ev.append(e)
+        ev.extend(extra)
     return ev, {nm: [spec[nm][0], np.array(spec[nm][1]).tolist(), spec[nm][2]] for nm in NAMES}, aabb_obs
 
 
@@ -271,6 +326,10 @@ def run(tier, seed):
     res = Result("C16", tier, seed)
     hl = histories(res, tier, rng)
     jobs = [(f"s{i}", seed * 7919 + i, h) for i, (src, h) in enumerate(hl)]
+    pinned = json.load(open(os.path.join(VERIF, "harness", "pinned", "c16_sessions.json")))
+    for i, pz in enumerate(pinned):
+        hl.insert(0, ("pinned:" + pz["name"], pz["history"]))
+        jobs.insert(0, (f"p{i}", 0, pz["history"], pz["bodies"]))
     from concurrent.futures import ProcessPoolExecutor
     with ProcessPoolExecutor(max_workers=16) as ex:
         out = list(ex.map(session, jobs, chunksize=1))
@@ -307,3 +366,9 @@ def replay(path):
     v = json.load(open(path))["replay"]
     print(json.dumps(v["history"]), json.dumps(v["event"]))
     return 1
+
+
+def timed_session(a):
+    import time
+    t = time.time(); session(a)
+    return round(time.time() - t, 2)
